@@ -125,7 +125,9 @@ class Vector():
 		if initial and all(isinstance(x, Vector) for x in initial):
 			if len({len(x) for x in initial}) == 1:
 				from .table import Table
-				return Table(initial=initial, dtype=dtype, name=name, as_row=as_row)
+				# Hand back an uninitialised Table: Python runs Table.__init__ on it
+				# (exactly once) with the original arguments
+				return Table.__new__(Table)
 			warnings.warn('Passing vectors of different length will not produce a Table.')
 		
 		# Convert Python types to DataType if needed
